@@ -902,6 +902,15 @@ fn handle_code_action(
         },
     };
 
+    // A well-behaved client sends a range whose start is not after its
+    // end, but the refactorings assert that the selection is ordered, so
+    // don't let a reversed range take the server down.
+    let mut requested_range = params.range;
+    if requested_range.end < requested_range.start {
+        std::mem::swap(&mut requested_range.start, &mut requested_range.end);
+    }
+    let requested_range = &requested_range;
+
     let fixes = get_fixes(&src, &path);
 
     // Convert fixes to code actions
@@ -910,7 +919,7 @@ fn handle_code_action(
         let range = garden_pos_to_lsp_range(&src, &fix.position);
 
         // Only include fixes that overlap with the requested range
-        if !ranges_overlap(&range, &params.range) {
+        if !ranges_overlap(&range, requested_range) {
             continue;
         }
 
@@ -937,23 +946,23 @@ fn handle_code_action(
         actions.push(CodeActionResponse::CodeAction(action));
     }
 
-    if let Some(action) = build_extract_function_action(&src, &path, uri, &params.range) {
+    if let Some(action) = build_extract_function_action(&src, &path, uri, requested_range) {
         actions.push(CodeActionResponse::CodeAction(action));
     }
 
-    if let Some(action) = build_extract_variable_action(&src, &path, uri, &params.range) {
+    if let Some(action) = build_extract_variable_action(&src, &path, uri, requested_range) {
         actions.push(CodeActionResponse::CodeAction(action));
     }
 
-    if let Some(action) = build_destructure_action(&src, &path, uri, &params.range) {
+    if let Some(action) = build_destructure_action(&src, &path, uri, requested_range) {
         actions.push(CodeActionResponse::CodeAction(action));
     }
 
-    if let Some(action) = build_wrap_in_dbg_action(&src, &path, uri, &params.range) {
+    if let Some(action) = build_wrap_in_dbg_action(&src, &path, uri, requested_range) {
         actions.push(CodeActionResponse::CodeAction(action));
     }
 
-    if let Some(action) = build_add_type_annotation_action(&src, &path, uri, &params.range) {
+    if let Some(action) = build_add_type_annotation_action(&src, &path, uri, requested_range) {
         actions.push(CodeActionResponse::CodeAction(action));
     }
 
